@@ -15,14 +15,53 @@ NOTE = ("trusted: z3; CPython+numpy executing the real code on dtype=object arra
         ".pyx sources for backend 'pyx' (no Cython compiler available); exact real arithmetic "
         "instead of float64 (rounding outside the claim); bounds as stated in evidence.coverage.bounds")
 
+MC = "model_checking"
 CHECKS = {
     # id: (category, text, design_ref)
-    "C01": ("model_checking",
-            "every feasible interleaving/tie/edge pattern of two trains with up to 3 (quick) / 4 (thorough) "
-            "spikes each is enumerated by the solver and the returned ISI profile and distance are proved equal "
-            "to the definition for all real spike times in that class; py fallback and translated .pyx kernels",
-            "DESIGN.md section 6 / C01"),
+    "C01": (MC, "every feasible interleaving/tie/edge pattern of two trains within the bound is enumerated by the solver and "
+            "the returned ISI profile and distance are proved equal to the definition for all real spike times of that "
+            "class; py fallback and translated .pyx kernels", "DESIGN.md 6/C01"),
+    "C02": (MC, "SPIKE profile (plain, RI, adaptive) proved equal to an independent global-definition oracle at both ends of "
+            "every piece, for every path of the real kernels within the bound (fork mode, non-linear obligations by z3/nlsat)",
+            "DESIGN.md 6/C02"),
+    "C03": (MC, "coincidence marks, multiplicities, per-spike indicator and scalar proved equal to the all-pairs definition "
+            "for every interleaving incl. exact ties between distance and window", "DESIGN.md 6/C03"),
+    "C04": (MC, "order profile, directionality values/scalars/matrix and synfire indicator proved against the pairwise "
+            "definition with the leader/follower sign, bivariate and 3-4 trains", "DESIGN.md 6/C04"),
+    "C05": (MC, "scalar = profile average proved for the real kernels (incl. the separately written single-pass .pyx routines) "
+            "and, for any pair profile, through the generic multivariate route with symbolic sub-intervals", "DESIGN.md 6/C05"),
+    "C06": (MC, "multivariate profile/distance/matrix proved to be the all-pairs aggregate for arbitrary symbolic pair "
+            "profiles, under all permutations of the list; plus end-to-end with the real kernels", "DESIGN.md 6/C06"),
+    "C07": (MC, "range, symmetry and identity obligations proved per path; the non-linear SPIKE bound S<=1 only for the sizes "
+            "the solver decides (undecided = inconclusive, never pass)", "DESIGN.md 6/C07"),
+    "C08": (MC, "metamorphic relations (shift by a symbolic real, dyadic/integer scaling, reversal) proved between two runs "
+            "that share their symbolic inputs", "DESIGN.md 6/C08"),
+    "C09": (MC, "add/mul_scalar/copy histories on symbolic piecewise functions proved to be the pointwise linear combination on "
+            "the merged support, incl. aliasing and operand immutability; py and .pyx add routines", "DESIGN.md 6/C09"),
+    "C10": (MC, "integral/avrg/evaluation/plottable data of symbolic piecewise functions proved exact for every position of "
+            "symbolic interval ends and times relative to the breakpoints", "DESIGN.md 6/C10"),
+    "C11": (MC, "discrete-profile add, open-interval integration, ratio convention and smoothing window proved against "
+            "dictionary-merge / unit-contribution oracles", "DESIGN.md 6/C11"),
+    "C12": ("translation_validation", "each of the 15 duplicated backend routines: the Python fallback and the de-cythonized "
+            ".pyx source are run on the same symbolic arguments and their outputs proved equal path by path; single-pass "
+            "distances against the average of the corresponding profile", "DESIGN.md 6/C12, 3"),
+    "C13": (MC, "reconcile_spike_trains proved against its contract on unordered/repeated symbolic spike times and different "
+            "edges; every public entry point proved insensitive to order/repetition and non-mutating", "DESIGN.md 6/C13"),
+    "C14": (MC, "all call forms and EVERY index list (size>=2, any order) of a 4-train list proved equivalent as expressions in "
+            "per-pair kernel symbols (kernels stubbed), keywords proved to reach the kernel; plus real kernels on 3 trains",
+            "DESIGN.md 6/C14"),
+    "C15": (MC, "MRTS=0 == omitted, monotonicity in MRTS, no-op region and MRTS='auto' (= explicit pooled RMS threshold) proved "
+            "per path; np.sqrt as an uninterpreted non-negative root with its defining equation", "DESIGN.md 6/C15"),
+    "C16": (MC, "every coincidence reported by sync/order/directionality/filter proved to have a partner strictly closer than "
+            "max_tau; None == 0; monotone in max_tau", "DESIGN.md 6/C16"),
+    "C17": (MC, "kept/removed spikes proved equal to the pairwise-definition count against a symbolic threshold (ties "
+            "k/(N-1) hit exactly), partition, monotonicity, agreement with the multivariate profile", "DESIGN.md 6/C17"),
+    "C18": (MC, "every public measure function on all combinations of degenerate trains: no exception on any path, every "
+            "denominator proved non-zero (no non-finite output), well-formed time axes", "DESIGN.md 6/C18"),
+    "C20": (MC, "merge: multiset union by object identity + sortedness; psth and Poisson generator against contract models of "
+            "numpy's linspace/histogram/exponential", "DESIGN.md 6/C20"),
 }
+READY = set("C01 C03 C04 C09 C10 C11 C14 C16 C20".split())
 
 NOT_APPLICABLE = {
     "C19": "text round-trip / file parsing: decimal<->binary float conversion and file I/O run in C code with no "
@@ -38,7 +77,7 @@ def main():
     checks = []
     na = []
     for pid in props:
-        if pid in CHECKS:
+        if pid in CHECKS and pid in READY:
             cat, text, ref = CHECKS[pid]
             checks.append(dict(
                 property_id=pid,
@@ -62,7 +101,7 @@ def main():
                                     "--timeout=900 --continue-on-collection-errors",
                    source_commits=[], add_only=True),
         engines=[dict(name="vf", path="vf/",
-                      serves_properties=sorted(CHECKS),
+                      serves_properties=sorted(READY),
                       kind_free_text="own path-enumerating symbolic executor (z3 Reals) running the real "
                                      "PySpike code; .pyx kernels via a de-cythonizing front end")],
         checks=checks,
